@@ -297,7 +297,8 @@ def execute(plan, timeout=300.0):
   """Runs subject + FRESH oracle child; returns (events, violations, stats)."""
   events = core.run_in_child(_subject, (plan,), timeout, "engineD subject")
   fresh = core.run_in_child(_fresh, (plan,), timeout, "engineD fresh")
-  return judge(plan, events, fresh)
+  return core.run_in_child(judge, (plan, events, fresh), timeout,
+                           "engineD judge")
 
 
 # ----------------------------------------------------------------------------
